@@ -41,7 +41,7 @@ func main() {
 // ---------------------------------------------------------------- canonical text
 
 const allocLimit = int64(1) << 48 // runtime maxAlloc on linux/amd64: make([]byte, n) panics beyond it
-const execLimit = 1 << 22         // sizes the runner is willing to really allocate
+const execLimit = 1 << 27         // sizes the runner is willing to really allocate (128 MiB)
 
 func fnv(d []byte) uint64 {
 	h := uint64(0xcbf29ce484222325)
@@ -535,9 +535,13 @@ func (s *session) init(f []string) (string, bool) {
 			}
 		} else {
 			fresh(t, new(bytes.Buffer))
-			if t.Len() != 0 || t.Cap() < int(n) || len(t.Bytes()) != 0 {
-				s.hit("NewSizedBuffer", "not-empty-with-capacity", fmt.Sprintf("NewSizedBuffer(%d): Len=%d Cap=%d", n, t.Len(), t.Cap()))
+			// the clause "NewSizedBuffer yields an empty buffer of at least the requested capacity", directly on the real code
+			if t.Len() != 0 || len(t.Bytes()) != 0 {
+				s.hit("NewSizedBuffer", "not-empty", fmt.Sprintf("NewSizedBuffer(%d): Len=%d", n, t.Len()))
 				s.diverged = true // later differences from bytes.Buffer are consequences of this one
+			}
+			if t.Cap() < int(n) {
+				s.hit("NewSizedBuffer", "capacity-below-request", fmt.Sprintf("NewSizedBuffer(%d): Cap=%d < %d requested", n, t.Cap(), n))
 			}
 		}
 		return "T " + res + " " + view(s.t) + " ## B ok " + view(s.b), true
@@ -681,7 +685,7 @@ func spec() corr.Spec {
 			case "thorough":
 				return 50000
 			}
-			return 120000
+			return 12000 // search tier (S7, after a broken tie): ~45 s, so that a whole run through S7 stays well under 2 min
 		},
 		Gen: genCase,
 		Run: runCase,
@@ -716,7 +720,7 @@ func spec() corr.Spec {
 		Assumptions: []string{
 			"bytes.Buffer of the sandbox's Go release (1.23.5) is the reference; its answers after Unread* that follows a Grow, and Cap(), are outside the property",
 			"readers handed to ReadFrom either deliver chunks of at most MinRead bytes or fill whatever they are offered until their data is used up (so that what they deliver in total does not depend on the space offered) and return m <= len(p)+1; writers return 0 <= m",
-			"allocation fails exactly for requests beyond the runtime's maxAlloc (2^48); sizes between 4 MiB and 2^48 are never executed",
+			"allocation fails exactly for requests beyond the runtime's maxAlloc (2^48); sizes between 128 MiB and 2^48 are never executed",
 			"bytes between len and cap of the storage are not modelled (never observable through the API)",
 		},
 		Trusted: []string{"modelled, not verified: unicode/utf8 EncodeRune/DecodeRune (Lean transcription validated on both buffers), Go slice/copy/make semantics, bytes.Buffer as the reference"},
